@@ -11,7 +11,7 @@
 (* Filter hashes are identified with block ids: the chained filter hash of *)
 (* block b is "fid b" (SimChain gives every block a unique filter).        *)
 (***************************************************************************)
-EXTENDS PeerSync, Index
+EXTENDS PeerSync, Index, CheckPoints
 
 VARIABLES
     scripts,   \* set of <<sk, number>>: FILTER_SCRIPTS (one entry per key)
@@ -35,6 +35,44 @@ allVars == <<psVars, fsVars>>
 Interval == cfg.interval
 MaxOut == cfg.maxOut
 Required == (MaxOut + 1) \div 2
+
+(***************************************************************************)
+(* Check points (C07): operators of module CheckPoints over the state      *)
+(***************************************************************************)
+\* the vectors finalize_check_points looks at: those of the peers proven in pm
+CpData(pm) == [p \in {q \in PeerNames : HasProof(pm[q])} |-> pf[p].cps]
+CpOnlyChange(ps) == \A q \in PeerNames \ ps : pf'[q].cps = pf[q].cps
+
+\* BlockFilterCheckPoints from p: [start, vals]; sentReq: the GetBlockFilterCheckPoints sent in reply
+RecvCheckPoints(p, start, vals, sentReq) ==
+    LET s == peer[p] IN
+    /\ CpOnlyChange({p})
+    /\ IF s.st = "None" \/ ~HasProof(s)
+       THEN /\ out'.ban = {} /\ pf'[p].cps = pf[p].cps
+       ELSE \E r \in {AddCheckPoints(pf[p].cps, Interval, Num(world, s.proved), start, vals)} :
+            /\ pf'[p].cps = r.cps
+            /\ out'.ban = IF r.ok THEN {} ELSE {p}
+            /\ r.ok => (sentReq = IF NumberOfLast(r.cps, Interval) + 2 * Interval <= Num(world, s.proved)
+                                      THEN {<<p, NumberOfLast(r.cps, Interval)>>} ELSE {})
+
+\* the finalization at the end of the refresh tick; peer' is the peer map after the tick's requests
+FinalizeStep ==
+    \E fin \in FinalizeSet(cpFinal, CpData(peer'), Required) :
+        /\ cpFinal' = fin.final
+        /\ out'.ban = fin.ban
+        /\ \A p \in PeerNames :
+              pf'[p].cps = IF p \in DOMAIN fin.trim THEN TrimCps(pf[p].cps, fin.trim[p]) ELSE pf[p].cps
+        /\ \A p \in DOMAIN fin.trim : fin.trim[p] > 0 => pf'[p].latest = <<(CpStart(pf'[p].cps)) * Interval, <<>> >>
+
+\* C07: what became final in this step is backed by a quorum of the currently proven peers
+CpQuorum == QuorumOk(cpFinal, cpFinal', CpData(peer'), Required)
+CpAppendOnly == IsPrefix(cpFinal, cpFinal')
+
+\* the check point tick of the filter protocol: asks every proven peer that can deliver more
+CheckPointTickAsks ==
+    {<<p, NumberOfLast(pf[p].cps, Interval)>> :
+        p \in {q \in PeerNames : /\ HasProof(peer[q])
+                                  /\ NumberOfLast(pf[q].cps, Interval) + 2 * Interval <= Num(world, peer[q].proved)}}
 
 Ix == [cells |-> cells, hist |-> hist, txs |-> txs, hdrs |-> hdrs, nums |-> nums, hit |-> FALSE]
 SetIx(ix) ==
